@@ -635,6 +635,8 @@ def split_rule(repo, rep):
 
 
 def run(repo, rep, tier):
+    from .round7b import hygiene
+    hygiene(repo, rep, "C09", ('wavespectra.partition.', 'wavespectra.specarray'), falsy=False)
     rep.rule("R-C09-9", "no numeric control parameter of the rule-based splits is defaulted with `p or <non-zero constant>` (a caller's 0 - no bin is wind sea, no "
                         "tolerance - would be replaced)")
     from .round7 import falsy_zero_defaulting, result_depends_on
